@@ -145,6 +145,42 @@ def unix_listeners():
     return out
 
 
+def unix_bound():
+    """-> {inode: path} of every unix socket bound to a path (stream, listening or not, and datagram)."""
+    out = {}
+    try:
+        with open("/proc/net/unix") as fh:
+            lines = fh.read().splitlines()[1:]
+    except OSError:
+        return out
+    for ln in lines:
+        f = ln.split(None, 7)
+        if len(f) < 8:
+            continue
+        try:
+            out[int(f[6])] = f[7]
+        except ValueError:
+            continue
+    return out
+
+
+def probe_unix_dgram(path, timeout=3.0):
+    """a datagram reaches the socket bound at path (nobody has to read it: the queue takes it)"""
+    s = socket.socket(socket.AF_UNIX, socket.SOCK_DGRAM)
+    s.settimeout(T(timeout))
+    try:
+        s.sendto(b"", path)
+        return "ok"
+    except ConnectionRefusedError:
+        return "refused"
+    except FileNotFoundError:
+        return "nofile"
+    except OSError as e:
+        return errno.errorcode.get(e.errno, str(e))
+    finally:
+        s.close()
+
+
 def probe_inet(port, host="127.0.0.1", timeout=3.0):
     """connect() and close at once.  -> 'ok' | 'refused' | other errno name"""
     s = socket.socket(socket.AF_INET, socket.SOCK_STREAM)
